@@ -2107,11 +2107,11 @@ func (e *Eval) storeElem(fr *frame, x *ssa.Store, el *ElemRef, v AV, st State) {
 						if ok1 && ok2 {
 							var out Layout
 							out = append(out, lowPart...)
-							if lw, _ := lowPart.Width(); lw < pos {
+							if lw, _ := lowPart.DeclWidth(); lw < pos {
 								out = append(out, Field{W: K(pos - lw)})
 							}
 							out = append(out, nb...)
-							if bw, _ := nb.Width(); bw < 8 {
+							if bw, _ := nb.DeclWidth(); bw < 8 {
 								out = append(out, Field{W: K(8 - bw)})
 							}
 							out = append(out, highPart...)
